@@ -97,7 +97,27 @@ pub fn one(ctx: &Ctx) -> Stats {
             1 => rng.usize(200, 3000),
             _ => rng.usize(0, 140),
         };
-        let seq = nuc_seq(&mut rng, len);
+        // one case in 150: a record long enough for any "parallelise long records" path (>= 8192 bases),
+        // mostly low-complexity so that coordinates get close to the corners
+        let len = if idx % 150 == 7 { rng.usize(8192, 70_000) } else { len };
+        let seq = if len >= 8192 {
+            st.class("record>=8192");
+            let mut s = nuc_seq(&mut rng, len);
+            // plant homopolymer / two-letter stretches at many places (including around typical block boundaries)
+            let mut p = 0usize;
+            while p + 64 < s.len() {
+                let run = rng.usize(10, 60);
+                let b = *rng.pick(b"ACTU");
+                let b2 = *rng.pick(b"AC");
+                for (j, x) in s[p..p + run].iter_mut().enumerate() {
+                    *x = if j % 3 == 0 { b2 } else { b };
+                }
+                p += rng.usize(64, 700);
+            }
+            s
+        } else {
+            nuc_seq(&mut rng, len)
+        };
         let case = || Json::obj().set("seq", Json::bytes(&seq)).set("S", Json::Int(s as i128));
         st.case(!seq.is_empty(), hash_bytes(&seq) ^ mix(s));
         st.class(if len > EXACT_POINTS { "longer-than-exact-range" } else { "exact-range" });
@@ -193,7 +213,7 @@ pub fn parse_points(line: &[u8], arity: usize) -> Result<Vec<Vec<f64>>, String> 
 }
 
 fn run_cgr_file(inp: &str, outp: &str, s: u64, threads: usize, memory: usize) -> Result<Result<(), String>, String> {
-    let _ = std::fs::remove_file(outp);
+    super::oligo::prepare_output(outp);
     guarded(|| {
         let mut c = CgrComputer::new(inp.to_string(), outp.to_string(), s as usize);
         c.set_threads(threads);
@@ -394,7 +414,7 @@ pub fn check_oligocgr_rows(data: &[u8], recs: &[Rec], k: usize, s: u64, norm: bo
 }
 
 fn run_kcgr(inp: &str, outp: &str, k: usize, s: u64, norm: bool, threads: usize, memory: usize) -> Result<Vec<u8>, (String, String)> {
-    let _ = std::fs::remove_file(outp);
+    super::oligo::prepare_output(outp);
     let r = guarded(|| {
         let mut c = OligoCgrComputer::new(inp.to_string(), outp.to_string(), k, s as usize);
         c.set_threads(threads);
@@ -582,4 +602,56 @@ pub fn manyrecs(ctx: &Ctx) -> Stats {
             st.sample(Json::obj().set("n_records", Json::u(nrec)).set("threads", Json::u(threads)).set("batch_limit", Json::Int(memory as i128)));
         }
     })
+}
+
+/// k-mer CGR on records with more than 2^24 windows of one canonical k-mer (accumulator width); analytic counts
+pub fn kcgr_large(ctx: &Ctx) -> Stats {
+    let mut st = Stats::new();
+    let n = ctx.pick(2u64, 6u64);
+    for i in 0..n {
+        if ctx.expired() {
+            st.truncated = true;
+            break;
+        }
+        let mut rng = Rng::keyed(ctx.seed, "c12.large", i);
+        let k = rng.usize(1, 3);
+        let len = (1usize << 24) + rng.usize(1000, 400_000);
+        let tail = rng.usize(1, 30_000);
+        let mut seq = vec![b'A'; len];
+        seq.extend(std::iter::repeat(b'C').take(tail));
+        let c = cols(k);
+        let idx: std::collections::HashMap<u64, usize> = c.codes.iter().enumerate().map(|(a, b)| (*b, a)).collect();
+        let mut exp = vec![0u64; c.codes.len()];
+        exp[idx[&0]] += (len - k + 1) as u64; // all-A windows
+        for s0 in (len - k + 1)..=(seq.len() - k) {
+            let code = model::canonical(model::encode(&seq[s0..s0 + k]).unwrap() as u64, k);
+            exp[idx[&code]] += 1;
+        }
+        let total: u64 = exp.iter().sum();
+        st.case(true, mix(i) ^ mix(len as u64));
+        let case = || Json::obj().set("layout", Json::s(format!("A*{} + C*{}", len, tail))).set("k", Json::u(k)).set("total_windows", Json::Int(total as i128));
+        for norm in [false, true] {
+            let r = guarded(|| {
+                let mut o = OligoCgrComputer::new("u.fa".into(), "u.out".into(), k, 16);
+                o.set_norm(norm);
+                o.verif_vectorise_one(&seq)
+            });
+            match r {
+                Err(p) => st.violate(&panic_sig(&p), p, case()),
+                Ok(Err(e)) => st.violate("kcgr.error", e, case()),
+                Ok(Ok(v)) => {
+                    for j in 0..c.codes.len() {
+                        let f = v[j].1;
+                        let ok = if norm { (f - exp[j] as f64 / total as f64).abs() <= 1e-12 } else { f == exp[j] as f64 };
+                        if !ok {
+                            st.violate(if norm { "kcgr.freq.norm:large" } else { "kcgr.freq.count:large" }, format!("column {} ({}): f = {} but count/total = {}/{}", j, c.names[j], f, exp[j], total), case());
+                            break;
+                        }
+                    }
+                }
+            }
+        }
+        st.sample(case());
+    }
+    st
 }
